@@ -834,4 +834,36 @@ theorem accOps_freshYield' (ns : Nat) (k : AccKind) (hk : k.fresh = true) :
     | call => simp [Req.isAcc] at hr
     | run buf => simp [Req.isAcc] at hr
 
+theorem hActM_fill_outs (ns : Nat) (sp : BSpec) (s : HSt) (x : HItem) (w : PW) :
+    ((hActM ns sp s (.fill x)).run w).2.2.outs = [] := by
+  simp only [hActM, M.bind_run]
+  split <;> simp
+
+/-- a `FillComputeSeq(*steps, accumulator)` — any harness fill/compute branch — allocates what it yields, if its
+accumulator does -/
+theorem hOps_freshYield' (ns : Nat) (sp : BSpec) (hk : sp.term.fresh = true) :
+    FreshYield (hOps ns sp) ns (fun s : HSt => s.ctr) := by
+  have hmono : ∀ st (s : HSt) (r : Req Skel), s.ctr ≤ ((hOps ns sp).act st s r).2.1.ctr := by
+    intro st s r
+    exact (hActM_lc (F := fun _ => True) (fun _ _ => trivial) _ s (fun _ _ => trivial) r (fun _ _ => trivial)).mono ⟨st, s.ctr⟩
+  have hfill : ∀ st (s : HSt) (x : HItem), ((hOps ns sp).act st s (.fill x)).2.2.outs = [] := by
+    intro st s x
+    simp only [hOps, hAct]
+    exact hActM_fill_outs ns sp s x _
+  refine ⟨hmono, ?_, ?_⟩
+  · intro st s r hr
+    cases r with
+    | fill x => rw [hfill]; simp [cellsOf]
+    | compute => exact (accCompute_fresh ns sp.term hk ⟨st, s.ctr⟩ s.acc).2.1
+    | request => exact (accCompute_fresh ns sp.term hk ⟨st, s.ctr⟩ s.acc).2.1
+    | call => simp [Req.isAcc] at hr
+    | run buf => simp [Req.isAcc] at hr
+  · intro st s r hr
+    cases r with
+    | fill x => rw [hfill]; simp [cellsOf]
+    | compute => exact (accCompute_fresh ns sp.term hk ⟨st, s.ctr⟩ s.acc).2.2
+    | request => exact (accCompute_fresh ns sp.term hk ⟨st, s.ctr⟩ s.acc).2.2
+    | call => simp [Req.isAcc] at hr
+    | run buf => simp [Req.isAcc] at hr
+
 end Lena.C04
